@@ -265,3 +265,6 @@ PROPS["C10"]["rule"] += (" ; plus the site engine: 15% of the elements of `in` c
 
 PROPS["C08"]["engines"].append(("mutate", {"quick": 800, "thorough": 20000}))
 PROPS["C08"]["rule"] += " ; plus the mutate engine (objects mutated in place between / after comparisons): with everything approved the same run a second time is a no-op"
+
+PROPS["C18"]["engines"].append(("multifile", {"quick": 40, "thorough": 800}))
+PROPS["C18"]["rule"] += " ; plus real sessions over 2-3 test files, a quarter of them started from a directory that does not contain the test files (harness/engines/multifile.py)"
